@@ -5,6 +5,7 @@ import (
 	"encoding/json"
 	"errors"
 	"fmt"
+	"io"
 	"runtime"
 	"sort"
 	"strings"
@@ -103,6 +104,13 @@ type c09Res struct {
 	errFired bool
 }
 
+// readerWrap is drawn once per run (see Run): how the simulated stream is framed for the decoder.
+var readerWrap int
+
+type onlyReader struct{ r io.Reader }
+
+func (o onlyReader) Read(p []byte) (int, error) { return o.r.Read(p) }
+
 var memA, memB runtime.MemStats
 
 func meter(on bool, f func()) uint64 {
@@ -163,27 +171,36 @@ func runBinary(c *kernel.RunCtx, ep int, data []byte, plan kernel.Plan, truncAt,
 	}
 	st := kernel.NewStream(data, plan)
 	st.TruncAt, st.ErrAt, st.ErrWith = truncAt, errAt, errWith
+	// the reader as the caller frames it: bare, or inside an io.LimitedReader whose limit is a generous
+	// message-size bound (not the amount of data present), or behind a type that hides every optional method
+	var rd io.Reader = st
+	switch readerWrap {
+	case 1:
+		rd = io.LimitReader(st, 1<<31)
+	case 2:
+		rd = onlyReader{st}
+	}
 	r.alloc = meter(doMeter, func() {
 		r.pn = catch(func() {
 			switch ep {
 			case epTxReadFrom:
 				tx := &bt.Tx{}
-				r.n, r.err = tx.ReadFrom(st)
+				r.n, r.err = tx.ReadFrom(rd)
 			case epTxsReadFrom:
 				var l bt.Txs
-				r.n, r.err = l.ReadFrom(st)
+				r.n, r.err = l.ReadFrom(rd)
 			case epInput:
 				in := &bt.Input{}
-				r.n, r.err = in.ReadFrom(st)
+				r.n, r.err = in.ReadFrom(rd)
 			case epInputExt:
 				in := &bt.Input{}
-				r.n, r.err = in.ReadFromExtended(st)
+				r.n, r.err = in.ReadFromExtended(rd)
 			case epOutput:
 				o := &bt.Output{}
-				r.n, r.err = o.ReadFrom(st)
+				r.n, r.err = o.ReadFrom(rd)
 			case epVarInt:
 				var v bt.VarInt
-				r.n, r.err = v.ReadFrom(st)
+				r.n, r.err = v.ReadFrom(rd)
 			}
 		})
 	})
@@ -234,7 +251,10 @@ func judge(c *kernel.RunCtx, r c09Res, fault string, mustFail bool, injectedErr 
 	}
 }
 
-var inflateNames = []string{"rest+1", "rest+300", "2^21", "2^26", "2^31", "2^32-1", "2^32", "2^63", "2^64-1", "w3", "w5", "w9"}
+var inflateNames = []string{"rest+1", "rest+300", "2^21", "2^26", "2^31", "2^32-1", "2^32", "2^63", "2^64-1", "w3", "w5", "w9", "ceil(2^64/9)", "ceil(2^64/10)", "ceil(2^64/41)", "2^61", "2^64/41*3+1"}
+
+// wrapV: products of these counts with a minimum element size (9, 10, 41, 8) wrap around 2^64 to something small
+var wrapV = []uint64{^uint64(0)/9 + 1, ^uint64(0)/10 + 1, ^uint64(0)/41 + 1, 1 << 61, (^uint64(0)/41)*3 + 3}
 
 func outcomeClass(r c09Res) string {
 	if r.pn != "" {
@@ -248,6 +268,8 @@ func outcomeClass(r c09Res) string {
 
 func (w *c09World) Run(c *kernel.RunCtx) {
 	c.Begin("shape")
+	readerWrap = c.Pick(3, 2, 1)
+	c.Count(fmt.Sprintf("probe.reader_framing_%d", readerWrap), 1)
 	extended := c.Bool(1, 2)
 	container := c.Pick(4, 2, 2)
 	ntx := 1
@@ -449,6 +471,8 @@ func (w *c09World) Run(c *kernel.RunCtx) {
 			enc = models.VarInt(1 << 63)
 		case 8:
 			enc = models.VarInt(^uint64(0))
+		case 12, 13, 14, 15, 16:
+			enc = models.VarInt(wrapV[vi-12])
 		default:
 			var ok bool
 			enc, ok = models.VarIntWide(f.Val, []int{3, 5, 9}[vi-9])
@@ -464,13 +488,13 @@ func (w *c09World) Run(c *kernel.RunCtx) {
 			}
 			r := runBinary(c, ep, mut, plans[(j+ep)%3], -1, -1, false, true)
 			c.Count("fault.len", 1)
-			if vi >= 9 {
+			if vi >= 9 && vi < 12 {
 				c.Count("probe.nonminimal_width_injected", 1)
 			}
 			// inflated counts/lengths can never be satisfied by what follows (values > rest), except
 			// element counts whose elements could be parsed out of the remaining bytes: only the
 			// generic oracles apply there. Non-minimal widths keep the value: must still succeed.
-			mustFail := vi < 9 && (strings.HasSuffix(f.Name, "_len") || vi >= 2)
+			mustFail := (vi < 9 || vi >= 12) && (strings.HasSuffix(f.Name, "_len") || vi >= 2)
 			if ep == epFromStream || ep == epTxReadFrom {
 				// a field beyond the first transaction does not concern these entry points
 				if f.Off >= ends[0] {
@@ -478,7 +502,7 @@ func (w *c09World) Run(c *kernel.RunCtx) {
 				}
 			}
 			judge(c, r, fault, mustFail, false, true)
-			if vi >= 9 && r.err != nil && r.pn == "" && !c.Failed() {
+			if vi >= 9 && vi < 12 && r.err != nil && r.pn == "" && !c.Failed() {
 				c.Fail("rejected-nonminimal", r.ep, "%s rejected a stream whose only change is a non-minimal (but valid) length prefix: %s: %v", r.ep, fault, r.err)
 			}
 			note(ep, "len:"+inflateNames[vi], f.Name, r)
